@@ -115,3 +115,45 @@ class LayerRunner:
 def symbolic_node(tag):
     n = Node(("c", tag), ())
     return ("node", n)
+
+
+
+def registry_entries(reg):
+    """[(request value, success callable, error callable)] from the abstract value of an iq registry, whatever shape an entry
+    has: (request, ok, err) tuples, (request, {"result": ok, "error": err}), objects ... - the request is the first
+    object / node found in the entry, the callbacks are the callables (or None) found in it, in order; a mapping is read
+    by its keys ('result' / 'success' / 'ok' first, then 'error' / 'fail')."""
+    out = []
+    if not reg or reg[0] != "dict":
+        return out
+
+    def walk(v, found):
+        if not isinstance(v, tuple) or not v:
+            return
+        if v[0] in ("obj", "node"):
+            found["req"].append(v)
+        elif v[0] in ("bound", "closure", "clsmethod"):
+            found["cb"].append(v)
+        elif v[0] == "c" and v[1] is None:
+            found["cb"].append(v)
+        elif v[0] == "list":
+            for x in v[1]:
+                walk(x, found)
+        elif v[0] == "dict":
+            items = list(v[1].items())
+
+            def rank(kv):
+                k = str(kv[0]).lower()
+                return 0 if any(t in k for t in ("result", "success", "ok")) else (1 if any(t in k for t in ("err", "fail")) else 2)
+            for k_, x in sorted(items, key=rank):
+                walk(x, found)
+    for k, v in reg[1].items():
+        entry = v
+        if isinstance(k, tuple) and k and k[0] == "dyn" and v[0] == "list" and len(v[1]) == 2:
+            entry = v[1][1]
+        found = {"req": [], "cb": []}
+        walk(entry, found)
+        if found["req"]:
+            cbs = found["cb"] + [("c", None), ("c", None)]
+            out.append((found["req"][0], cbs[0], cbs[1]))
+    return out
